@@ -88,7 +88,20 @@ func (x *Exec) execInstr(fr *Frame, instr ssa.Instruction) {
 		}
 		fr.env[in] = &FuncV{T: in.Type(), Id: intLit(int64(x.eng.fnID(fn))), Fn: fn, Bindings: bs}
 	case *ssa.Call:
+		x.tailNext = false
+		if (fr.top || fr.tail) && len(fr.deferred) == 0 && len(x.scratches) == 0 && fr.scratch == nil && x.retHook != nil {
+			// tail position: "t = f(...); return t"
+			instrs := in.Block().Instrs
+			for i, ii := range instrs {
+				if ii == ssa.Instruction(in) && i+1 < len(instrs) {
+					if ret, ok := instrs[i+1].(*ssa.Return); ok && len(ret.Results) == 1 && ret.Results[0] == ssa.Value(in) {
+						x.tailNext = true
+					}
+				}
+			}
+		}
 		r := x.doCall(fr, &in.Call, in, in.Pos())
+		x.tailNext = false
 		if r != nil {
 			fr.env[in] = r
 		}
